@@ -6,7 +6,8 @@
    through the values written, which are universally quantified. *)
 From Brc.Model Require Import Base History Table BlockTable Store.
 From Brc.Model Require Import Engine EngineStore.
-From Brc.Proofs Require Import HistoryP KvP TableP BlockTableP StoreP EngineP EngineStoreP.
+From Brc.Model Require Import Allowed.
+From Brc.Proofs Require Import HistoryP KvP TableP BlockTableP StoreP EngineP EngineStoreP AllowedP.
 From BrcGen Require Import Consts.
 
 Theorem C01_window_pinned : W = 10.
@@ -85,6 +86,20 @@ Proof.
                     h g_init wf_init Rel_init).
 Qed.
 Print Assumptions C01_engine_protocol_implies_wf.
+
+(* The hypothesis [allowed] is decidable: [allowed_b] (Model/Allowed.v) is evaluated by Coq on
+   every history the C05 / C08 correspondence runs record on the real engine (each call with the
+   store operations issued while it was served; Model/TieAllowed.v).  A history that passes has a
+   well-formed store trace: the chain  real run -> allowed -> wf_run -> store theorems  is
+   closed by computation on the recorded histories and by proof everywhere else. *)
+Theorem C01_checked_history_wf :
+  forall (h : list (call * list sop)),
+    allowed_b W MAX_FUTURE_TRANSACTION_NONCES MAX_FUTURE_TRANSACTION_BLOCKS INDEXER_ADDRESS g_init wf_init h = true ->
+    exists st', wf_run W wf_init (concat (map snd h)) = Some st'.
+Proof.
+  exact (checked_history_wf W MAX_FUTURE_TRANSACTION_NONCES MAX_FUTURE_TRANSACTION_BLOCKS INDEXER_ADDRESS).
+Qed.
+Print Assumptions C01_checked_history_wf.
 
 (* Non-vacuity: a 14-block trace (a key created, overwritten with the same value, zeroed,
    deleted, idle past the window, touched again), committed half-way, then rolled back 10
